@@ -21,6 +21,11 @@ from yabgp.message.attribute import AttributeFlag
 from yabgp.common import exception as excep
 from yabgp.common import constants as bgp_cons
 
+# well-known names keyed in upper case: construct() compares case-insensitively and some
+# names ('ROUTE_FILTER_v4', ...) contain lower-case letters
+WELL_KNOW_COMMUNITY_UPPER_2_INT = dict(
+    (name.upper(), value) for name, value in bgp_cons.WELL_KNOW_COMMUNITY_STR_2_INT.items())
+
 
 class Community(Attribute):
     """
@@ -68,8 +73,8 @@ class Community(Attribute):
         """
         community_hex = b''
         for community in value:
-            if community.upper() in bgp_cons.WELL_KNOW_COMMUNITY_STR_2_INT:
-                value = bgp_cons.WELL_KNOW_COMMUNITY_STR_2_INT[community.upper()]
+            if community.upper() in WELL_KNOW_COMMUNITY_UPPER_2_INT:
+                value = WELL_KNOW_COMMUNITY_UPPER_2_INT[community.upper()]
                 community_hex += struct.pack('!I', value)
             else:
                 try:
